@@ -122,7 +122,59 @@ type C01StaticCase struct {
 	Restacks int        `json:"restacks"`
 	Watch    []bool     `json:"watch,omitempty"`
 	Targets  []int      `json:"targets,omitempty"`
+	// InPlace: every watcher keeps ONE long-lived value; for an update it
+	// rewrites that value in place (same pointers, maps and backing arrays,
+	// new contents) and reports it again.
+	InPlace bool `json:"in_place,omitempty"`
+	// DoneEarly: a watcher calls Done right after its last update while other
+	// watchers still have updates to come; its last value stays in the stack.
+	DoneEarly bool `json:"done_early,omitempty"`
 }
+
+// assignInPlace makes dst deeply equal to src while keeping dst's own
+// pointers, maps and slice backing arrays wherever the shapes allow it.
+func assignInPlace(dst, src reflect.Value) {
+	switch dst.Kind() {
+	case reflect.Pointer:
+		if !dst.IsNil() && !src.IsNil() {
+			assignInPlace(dst.Elem(), src.Elem())
+			return
+		}
+	case reflect.Map:
+		if !dst.IsNil() && !src.IsNil() {
+			dst.Clear()
+			it := src.MapRange()
+			for it.Next() {
+				dst.SetMapIndex(it.Key(), it.Value())
+			}
+			return
+		}
+	case reflect.Slice:
+		if !dst.IsNil() && !src.IsNil() && dst.Len() == src.Len() {
+			for i := 0; i < dst.Len(); i++ {
+				assignInPlace(dst.Index(i), src.Index(i))
+			}
+			return
+		}
+	case reflect.Struct:
+		if dst.Type() != timeType {
+			for i := 0; i < dst.NumField(); i++ {
+				if dst.Field(i).CanSet() {
+					assignInPlace(dst.Field(i), src.Field(i))
+				}
+			}
+			return
+		}
+	case reflect.Array:
+		for i := 0; i < dst.Len(); i++ {
+			assignInPlace(dst.Index(i), src.Index(i))
+		}
+		return
+	}
+	dst.Set(src)
+}
+
+var timeType = reflect.TypeOf(time.Time{})
 
 func genC01Static(t *rapid.T) C01StaticCase {
 	c := C01StaticCase{Type: rapid.IntRange(0, len(staticTypes)-1).Draw(t, "type")}
@@ -140,6 +192,8 @@ func genC01Static(t *rapid.T) C01StaticCase {
 	for i := range c.Watch {
 		c.Watch[i] = rapid.IntRange(0, 2).Draw(t, "watching") == 0
 	}
+	c.InPlace = rapid.IntRange(0, 2).Draw(t, "in_place") == 0
+	c.DoneEarly = rapid.IntRange(0, 2).Draw(t, "done_early") == 0
 	if c.Restacks > 0 {
 		any := false
 		for _, w := range c.Watch {
@@ -203,6 +257,7 @@ func runStatic[T any](c C01StaticCase) vrt.Verdict {
 		tail = &fake.Watcher{}
 		srcs = append(srcs, tail)
 	}
+	earlyDone, inPlaceReports := 0, 0
 	dl, err := dials.Config(ctx, defaults.Interface().(*T), srcs...)
 	if err != nil {
 		return vrt.Violationf("Config failed: %v", err)
@@ -225,6 +280,58 @@ func runStatic[T any](c C01StaticCase) vrt.Verdict {
 		return vrt.Violationf("%s", msg)
 	}
 	staticAfterWatcher := false
+	persist := map[*fake.Watcher]reflect.Value{}
+	// the slot every update goes to, so that "last update of a watcher" is known
+	slotOf := func(i int) (*fake.Watcher, int) {
+		if tail != nil {
+			return tail, len(slots) - 1
+		}
+		tgt := 0
+		if k := i - nInit; k < len(c.Targets) {
+			tgt = c.Targets[k]
+		}
+		slot := watcherIdx[0]
+		for _, wi := range watcherIdx {
+			if wi >= tgt%nInit {
+				slot = wi
+				break
+			}
+		}
+		return watchers[slot], slot
+	}
+	lastUpdate := map[*fake.Watcher]int{}
+	for i := nInit; i < nl; i++ {
+		w, _ := slotOf(i)
+		lastUpdate[w] = i
+	}
+	doneCalled := map[*fake.Watcher]bool{}
+	finishIdle := func(after int) {
+		if !c.DoneEarly {
+			return
+		}
+		// watchers with nothing more to report finish, as long as one with pending updates remains
+		pending := 0
+		for w, lu := range lastUpdate {
+			if lu > after && !doneCalled[w] {
+				pending++
+			}
+		}
+		if pending == 0 {
+			return
+		}
+		all := []*fake.Watcher{}
+		for _, wi := range watcherIdx {
+			all = append(all, watchers[wi])
+		}
+		for _, w := range all {
+			if lu, has := lastUpdate[w]; (!has || lu <= after) && !doneCalled[w] {
+				w.Args.Done(ctx)
+				doneCalled[w] = true
+				earlyDone++
+			}
+		}
+	}
+	finishIdle(nInit - 1)
 	for i := nInit; i < nl; i++ {
 		w, slot := tail, len(slots)-1
 		if tail == nil {
@@ -247,13 +354,34 @@ func runStatic[T any](c C01StaticCase) vrt.Verdict {
 				}
 			}
 		}
-		if err := w.Args.BlockingReportNewValue(ctx, mk(d.Layers[i])(w.Type)); err != nil {
+		val := mk(d.Layers[i])(w.Type)
+		if c.InPlace {
+			fresh := val
+			if fresh.Kind() == reflect.Pointer {
+				fresh = fresh.Elem()
+			}
+			pv, ok := persist[w]
+			if !ok {
+				pv = reflect.New(fresh.Type()).Elem()
+				pv.Set(fresh)
+				persist[w] = pv
+			} else {
+				assignInPlace(pv, fresh)
+				inPlaceReports++
+			}
+			val = pv
+			if d.Layers[i].ByPtr {
+				val = pv.Addr()
+			}
+		}
+		if err := w.Args.BlockingReportNewValue(ctx, val); err != nil {
 			return vrt.Violationf("re-stack %d failed: %v", i-nInit, err)
 		}
 		slots[slot] = d.Layers[i]
-		if msg := check(fmt.Sprintf("after update %d (source %d of %d)", i-nInit, slot, len(slots))); msg != "" {
+		if msg := check(fmt.Sprintf("after update %d (source %d of %d; in place=%v, watchers finished early=%d)", i-nInit, slot, len(slots), c.InPlace, earlyDone)); msg != "" {
 			return vrt.Violationf("%s", msg)
 		}
+		finishIdle(i)
 	}
 	if df := shape.Diff(b.Defaults(d).Elem(), defaults.Elem()); df != "" {
 		return vrt.Violationf("the caller's defaults were modified at %s", df)
@@ -274,13 +402,19 @@ func runStatic[T any](c C01StaticCase) vrt.Verdict {
 	if staticAfterWatcher {
 		labels = append(labels, "update-below-a-static-source")
 	}
+	if inPlaceReports > 0 {
+		labels = append(labels, "value-rewritten-in-place-and-re-reported")
+	}
+	if earlyDone > 0 {
+		labels = append(labels, "watcher-finished-before-later-updates")
+	}
 	return vrt.OK(nInit >= 2 && multi, labels...)
 }
 
 func TestC01Static(t *testing.T) {
 	vrt.Check(t, vrt.Prop[C01StaticCase]{
 		ID: "C01", Name: "static",
-		Rule: "three compiler-made config types (scalars, durations, time.Time and pointer to it, net.IP, arrays, named scalar / slice / map / text types, user pointers incl. **int, sets, nested / pointer / embedded structs incl. an embedded pointer, and unexported / dials:\"-\" / chan / func fields between retained ones) stacked through the public path Config[T] -> View from 0..6 sources, static and watching ones interleaved in any argument order, followed by later updates of any of the watchers; defaults and layers from per-(layer,leaf) seeds; " +
+		Rule: "four compiler-made config types (scalars, durations, time.Time and pointer to it, net.IP, arrays, named scalar / slice / map / text types, user pointers incl. **int, sets, nested / pointer / embedded structs incl. an embedded pointer, and unexported / dials:\"-\" / chan / func fields between retained ones) stacked through the public path Config[T] -> View from 0..6 sources, static and watching ones interleaved in any argument order, followed by later updates of any of the watchers (in a third of the cases every watcher rewrites ONE long-lived value in place and re-reports it; in a third, watchers call Done after their last update while others still report); defaults and layers from per-(layer,leaf) seeds; " +
 			"oracle: the same pure reference model as C01/reflect, leaf by leaf by field name; non-trivial = >=2 static layers with a leaf set by >=2 of them; distinct = distinct case JSON",
 		Assumptions: []string{"a watcher update replaces that source's whole slot (documented re-stack semantics)"},
 		Gen:         genC01Static,
